@@ -217,6 +217,35 @@ pub enum Untagged {
     Struct { a: u8, b: String },
     Other { z: Vec<u8> },
 }
+/// Floats of both widths behind `deserialize_any` (untagged, internally tagged, flattened): the
+/// buffered value keeps its width and its bits (NaN payloads included).
+#[derive(Serialize, Deserialize, Debug)]
+#[serde(untagged)]
+pub enum UntaggedFloats {
+    Single { s: f32 },
+    Double { d: f64 },
+    Pair(f32, f64),
+    Many { m: Vec<f32> },
+    Bare32(f32),
+}
+#[derive(Serialize, Deserialize, Debug)]
+#[serde(tag = "t")]
+pub enum IntTagFloats {
+    A { x: f32, y: f64 },
+    B { v: Vec<f32>, o: Option<f32> },
+}
+#[derive(Serialize, Deserialize, Debug)]
+pub struct FloatInner {
+    f: f32,
+    g: f64,
+    o: Option<f32>,
+}
+#[derive(Serialize, Deserialize, Debug)]
+pub struct FlatFloats {
+    id: u8,
+    #[serde(flatten)]
+    inner: FloatInner,
+}
 #[derive(Serialize, Deserialize, Debug)]
 pub struct FlatInner {
     b: String,
@@ -506,6 +535,15 @@ stype!(Untagged, false, |r| match r.below(8) {
     _ => Untagged::Other { z: g(r) },
 }, |s| variant_name(s));
 stype!(Flat, false, |r| Flat { a: g(r), inner: FlatInner { b: g(r), c: g(r), n: g(r) }, z: g(r) });
+stype!(UntaggedFloats, false, |r| match r.below(5) {
+    0 => UntaggedFloats::Single { s: g(r) },
+    1 => UntaggedFloats::Double { d: g(r) },
+    2 => UntaggedFloats::Pair(g(r), g(r)),
+    3 => UntaggedFloats::Many { m: gen_vec(r, |r| g(r)) },
+    _ => UntaggedFloats::Bare32(g(r)),
+}, |s| variant_name(s));
+stype!(IntTagFloats, false, |r| if r.bool() { IntTagFloats::A { x: g(r), y: g(r) } } else { IntTagFloats::B { v: gen_vec(r, |r| g(r)), o: g(r) } }, |s| variant_name(s));
+stype!(FlatFloats, false, |r| FlatFloats { id: g(r), inner: FloatInner { f: g(r), g: g(r), o: g(r) } });
 stype!(FlatMap, false, |r| FlatMap { id: g(r), rest: (0..r.below(4)).map(|i| (format!("k{}{}", i, small_string(r)), g(r))).collect() });
 stype!(Renamed, true, |r| Renamed { xy: g(r), d: g(r), empty: g(r) });
 stype!(LongNames, true, |r| LongNames { n1: g(r), n23: g(r), n24: g(r), n25: g(r), n31: g(r), n32: g(r), n255: g(r), n256: g(r), n300: g(r), u24: g(r), u27: g(r), u31: g(r) });
@@ -534,7 +572,7 @@ stype_subj!(u8, u16, u32, u64, i8, i16, i32, i64, bool, char, f32, f64, String, 
 macro_rules! for_each_stype {
     ($m:ident) => {
         $m!(Ints); $m!(Scalars); $m!(Texts); $m!(UnitStruct); $m!(Newtype); $m!(TupleStruct); $m!(Nested); $m!(Seqs); $m!(Maps);
-        $m!(Ext); $m!(WithEnums); $m!(IntTag); $m!(AdjTag); $m!(Untagged); $m!(Flat); $m!(FlatMap); $m!(Renamed); $m!(LongNames); $m!(LongVariants); $m!(StdTypes);
+        $m!(Ext); $m!(WithEnums); $m!(IntTag); $m!(AdjTag); $m!(Untagged); $m!(Flat); $m!(FlatFloats); $m!(UntaggedFloats); $m!(IntTagFloats); $m!(FlatMap); $m!(Renamed); $m!(LongNames); $m!(LongVariants); $m!(StdTypes);
         $m!(KfUntaggedUnitVariant); $m!(KfUntaggedUnitValue); $m!(KfUntaggedChar); $m!(KfIntTagChar); $m!(KfFlatChar); $m!(KfIntTagUnitField); $m!(KfFlatUnit);
         $m!(u8); $m!(u16); $m!(u32); $m!(u64); $m!(i8); $m!(i16); $m!(i32); $m!(i64); $m!(bool); $m!(char); $m!(f32); $m!(f64); $m!(String); $m!(());
         $m!(Option<u8>); $m!(Option<String>); $m!(Vec<u8>); $m!(Vec<String>); $m!((u8, String)); $m!((i64, bool, f32)); $m!([u16; 1]); $m!([u8; 32]);
